@@ -261,8 +261,8 @@ fn engine_live_sub(tier: Tier) -> Sub {
       work.push((ci, vec![a]));
     }
     // pairs around the handshake/data border
-    let lo = hs.saturating_sub(tier.pick(24, 48)).max(1);
-    let hi = (hs + tier.pick(24, 48)).min(total - 1);
+    let lo = hs.saturating_sub(tier.pick(24, 96)).max(1);
+    let hi = (hs + tier.pick(24, 96)).min(total - 1);
     for a in lo..=hi {
       for b in a + 1..=hi {
         work.push((ci, vec![a, b]));
@@ -344,7 +344,7 @@ fn session_sub(tier: Tier) -> Sub {
     for a in 1..n {
       work.push((ti, vec![a]));
     }
-    let w = tier.pick(12, 40);
+    let w = tier.pick(12, 80);
     let lo = h.saturating_sub(w).max(1);
     let hi = (h + w).min(n - 1);
     for a in lo..=hi {
